@@ -178,6 +178,8 @@ Leaf(id) ==
     \* a quoted metric name inside the braces is an equality matcher on __name__, Name stays empty
     [] id = "sel_u" -> [toks |-> <<"{", "$U:u.m", ",", "a", "=", "$S:x", "}">>,
                         e |-> VS("", << <<"__name__", "=", "$U:u.m", TRUE>>, <<"a", "=", "x", TRUE>> >>)]
+    [] id = "sel_ne" -> [toks |-> <<"{", "__name__", "=", "$S:empty", ",", "a", "=", "$S:x", "}">>,
+                         e |-> VS("", << <<"__name__", "=", "empty", FALSE>>, <<"a", "=", "x", TRUE>> >>)]
     [] id = "sel_e" -> [toks |-> <<"{", "a", "=~", "$S:restar", "}">>, e |-> VS("", << <<"a", "=~", "restar", FALSE>> >>)]
     [] id = "kw_sum" -> [toks |-> <<"sum">>, e |-> VS("sum", <<>>)]
     [] id = "kw_off" -> [toks |-> <<"offset">>, e |-> VS("offset", <<>>)]
@@ -301,6 +303,7 @@ Busy == ~done /\ nops < MaxOps
 
 Push(id) ==
   /\ Busy /\ Len(stack) < MaxStack
+  /\ Parens \/ \A i \in 1..Len(stack) : stack[i].atomic    \* without parentheses a finished chain is a dead end
   /\ LET l == Leaf(id) IN stack' = Append(stack, Item(l.e, l.toks, TRUE))
   /\ nops' = nops + 1 /\ UNCHANGED done
 
